@@ -124,11 +124,18 @@ def parse_script(script_text, start_line_number=1):
         # If-then begin?
         match_if_begin = _R_SCRIPT_IF_BEGIN.match(line)
         if match_if_begin:
+            # Parse the if-then expression
+            try:
+                ifthen_expr = parse_expression(match_if_begin.group('expr'))
+            except BareScriptParserError as error:
+                column_number = match_if_begin.start('expr') + error.column_number
+                raise BareScriptParserError(error.error, line, column_number, start_line_number + ix_line)
+
             # Add the if-then label definition
             ifthen = {
                 'jump': {
                     'label': f"__bareScriptIf{label_index}",
-                    'expr': {'unary': {'op': '!', 'expr': parse_expression(match_if_begin.group('expr'))}}
+                    'expr': {'unary': {'op': '!', 'expr': ifthen_expr}}
                 },
                 'done': f"__bareScriptDone{label_index}",
                 'hasElse': False,
@@ -155,11 +162,18 @@ def parse_script(script_text, start_line_number=1):
             if ifthen['hasElse']:
                 raise BareScriptParserError('Elif statement following else statement', line, 1, start_line_number + ix_line)
 
+            # Parse the else-if-then expression
+            try:
+                ifthen_expr = parse_expression(match_if_else_if.group('expr'))
+            except BareScriptParserError as error:
+                column_number = match_if_else_if.start('expr') + error.column_number
+                raise BareScriptParserError(error.error, line, column_number, start_line_number + ix_line)
+
             # Generate the next if-then jump statement
             prev_label = ifthen['jump']['label']
             ifthen['jump'] = {
                 'label': f"__bareScriptIf{label_index}",
-                'expr': {'unary': {'op': '!', 'expr': parse_expression(match_if_else_if.group('expr'))}}
+                'expr': {'unary': {'op': '!', 'expr': ifthen_expr}}
             }
             label_index += 1
 
@@ -212,12 +226,19 @@ def parse_script(script_text, start_line_number=1):
         # While-do begin?
         match_while_begin = _R_SCRIPT_WHILE_BEGIN.match(line)
         if match_while_begin:
+            # Parse the while-do expression
+            try:
+                whiledo_expr = parse_expression(match_while_begin.group('expr'))
+            except BareScriptParserError as error:
+                column_number = match_while_begin.start('expr') + error.column_number
+                raise BareScriptParserError(error.error, line, column_number, start_line_number + ix_line)
+
             # Add the while-do label
             whiledo = {
                 'loop': f'__bareScriptLoop{label_index}',
                 'continue': f'__bareScriptLoop{label_index}',
                 'done': f'__bareScriptDone{label_index}',
-                'expr': parse_expression(match_while_begin.group('expr')),
+                'expr': whiledo_expr,
                 'line': line,
                 'lineNumber': start_line_number + ix_line
             }
@@ -249,6 +270,13 @@ def parse_script(script_text, start_line_number=1):
         # For-each begin?
         match_for_begin = _R_SCRIPT_FOR_BEGIN.match(line)
         if match_for_begin:
+            # Parse the for-each values expression
+            try:
+                foreach_values_expr = parse_expression(match_for_begin.group('values'))
+            except BareScriptParserError as error:
+                column_number = match_for_begin.start('values') + error.column_number
+                raise BareScriptParserError(error.error, line, column_number, start_line_number + ix_line)
+
             # Add the for-each label
             foreach = {
                 'loop': f'__bareScriptLoop{label_index}',
@@ -266,7 +294,7 @@ def parse_script(script_text, start_line_number=1):
 
             # Add the for-each header statements
             statements.extend([
-                {'expr': {'name': foreach['values'], 'expr': parse_expression(match_for_begin.group('values'))}},
+                {'expr': {'name': foreach['values'], 'expr': foreach_values_expr}},
                 {'expr': {
                     'name': foreach['length'],
                     'expr': {'function': {'name': 'arrayLength', 'args': [{'variable': foreach['values']}]}}
